@@ -99,14 +99,30 @@ def cmd_run(ns):
         )
 
     # ---- probe completeness (thorough): vacuous exploration is not a pass
-    missing = []
+    # Probes that depend on the workload alone must be hit. Fault kinds fire
+    # only where the library calls an intercepted primitive (io.open,
+    # os.mkdir, soundfile in soundevent.audio.io); a build that reaches the
+    # disk another way leaves them unhit, which is reported (here and in the
+    # evidence) but is not a failure of the property or of the check.
+    missing, unreached = [], []
     if tier == "thorough" and not confirmed:
+        seam = set(getattr(m, "SEAM_PROBES", {}).get(prop, []))
         for probe in core_probes(prop, tier):
             hit = total["probes"].get(probe, 0) + total["faults"].get(probe, 0)
             if not hit:
-                missing.append(probe)
+                (unreached if probe in seam else missing).append(probe)
         if missing:
             errors.append(f"core probes never hit: {missing}")
+    total["seam_unreached"] = unreached
+    # a search in which (almost) nothing was judged did not decide anything
+    if not confirmed and not errors and total["runs"] >= 50:
+        if total["nontrivial"] * 10 < total["runs"]:
+            errors.append(
+                f"vacuous search: only {total['nontrivial']} of "
+                f"{total['runs']} runs were non-trivial "
+                f"(construction refused: "
+                f"{total['probes'].get('world:construction-refused', 0)})"
+            )
 
     known_lines = []
     for finding in runner.load_known(prop):
@@ -130,6 +146,10 @@ def cmd_run(ns):
     print(f"[simlab] faults fired: {dict(sorted(total['faults'].items()))}")
     for line in known_lines:
         print(line)
+    if total.get("seam_unreached"):
+        print(f"[simlab] SEAM-UNREACHED (fault kinds that never fired; this "
+              f"build does not pass through the intercepted primitive): "
+              f"{total['seam_unreached']}")
     if errors:
         for err in errors:
             print(f"HARNESS-ERROR {err}")
@@ -194,7 +214,12 @@ def write_evidence(prop, tier, seed, total, wall, workers, m, audit,
         "seed": seed,
         "level": "exploration",
         "coverage": coverage,
-        "assumptions": m.ASSUMPTIONS,
+        "assumptions": m.ASSUMPTIONS + (
+            [f"fault kinds that never fired in this execution (the build does "
+             f"not pass through the intercepted primitive): "
+             f"{total['seam_unreached']}"]
+            if total.get("seam_unreached") else []
+        ),
         "wall_s": round(wall, 2),
         "violations": n_violations,
     }
